@@ -65,3 +65,69 @@ func ScenarioD1Fork(mons []*Mon, keepLog bool, src Src) *World {
 	w.Finish()
 	return w
 }
+
+// ScenarioD20Lock is the dBFT 2.0 liveness lock with four honest validators and a healed
+// partition (known finding D20): the primary (0) asks for a view change after the heal and then,
+// seeing one commit and one validator it has not heard from, still accepts the third
+// preparation and commits in view 0; validators 2 and 3 have meanwhile moved to view 1 with its
+// request.  Afterwards every message is delivered and every timer fires, round after round:
+// 0 and 1 stay commit-locked in view 0, 2 and 3 can never gather M in any later view.
+func ScenarioD20Lock(mons []*Mon, keepLog bool, src Src, rounds int) *World {
+	base := []int{0, 1, 2, 3}
+	cfg := Cfg{IDs: 4, Validators: func(uint32) []int { return base }, ValDesc: "const[0..3]", StartTip: 3, AMEVHeight: -1,
+		TimePerBlock: time.Second, TsIncrement: 1_000_000, Epoch: time.Date(2024, 1, 1, 0, 0, 0, 0, time.UTC)}
+	w := NewWorld(cfg, src, nil, nil, mons, keepLog)
+	w.StartAll() // height 4: primary index 0
+	p, x, z, y := w.Nodes[0], w.Nodes[1], w.Nodes[2], w.Nodes[3]
+	to := func(t dbft.MessageType, from int, dst ...int) {
+		w.DeliverWhere(func(m *Msg) bool {
+			if m.P.T != t || m.From != from {
+				return false
+			}
+			for _, d := range dst {
+				if m.To == d {
+					return true
+				}
+			}
+			return false
+		})
+	}
+	w.act("-- partition {0,1} | {2,3}; the proposal still reaches 2")
+	w.FireTimer(p)
+	to(dbft.PrepareRequestType, 0, 1, 2)
+	to(dbft.PrepareResponseType, 1, 0)
+	to(dbft.PrepareResponseType, 2, 3)
+	w.FireTimer(z) // hears only the primary: recovery request
+	w.FireTimer(y)
+	to(dbft.RecoveryRequestType, 2, 3)
+	to(dbft.RecoveryRequestType, 3, 2)
+	w.FireTimer(z) // has heard 0 and 3: asks for view 1
+	w.act("-- heal")
+	w.FireTimer(x)
+	to(dbft.RecoveryRequestType, 1, 0, 2, 3)
+	to(dbft.ChangeViewType, 2, 0, 1, 3)
+	w.FireTimer(y) // has heard 1 and 2: asks for view 1
+	to(dbft.ChangeViewType, 3, 2)
+	w.FireTimer(p) // has heard 1 and 2, not 3: asks for view 1
+	to(dbft.ChangeViewType, 0, 2, 3)
+	to(dbft.PrepareResponseType, 2, 1) // 1 holds {0,1,2}: commits
+	to(dbft.CommitType, 1, 0)
+	to(dbft.PrepareResponseType, 2, 0) // 0 is view changing, but one committed + one unheard > F: accepts, commits
+	w.act("-- everything in flight is delivered; then synchronous rounds")
+	for r := 0; r < rounds; r++ {
+		for len(w.Flight) > 0 {
+			w.Deliver(0, false)
+		}
+		for _, n := range w.Nodes {
+			if n != nil && n.Timer.Pending && !n.D.BlockSent() {
+				w.FireTimer(n)
+			}
+		}
+	}
+	for len(w.Flight) > 0 {
+		w.Deliver(0, false)
+	}
+	w.TimedRes = &Timed{W: w, O: TimedOpts{Heights: 1}, HitLimit: "rounds"}
+	w.Finish()
+	return w
+}
